@@ -351,6 +351,29 @@ m('flushpage-clears-dirty-after-write', ['C13'], BPM, '''		data := pg.Data()
 m('disk-offset-32bit-product', ['C13'], 'lib/storage/disk/disk_manager_impl.go', '''	offset := int64(pageID) * int64(common.PageSize)
 	_, errSeek := d.db.Seek(offset, io.SeekStart)''', '''	offset := int64(pageID * common.PageSize)
 	_, errSeek := d.db.Seek(offset, io.SeekStart)''', ['C13-R7 [offset-64bit:(*storage/disk.DiskManagerImpl).WritePage'])
+m('slot-advance-skips-marked-rows', ['C04'], TP, '''	for ii := initVal; ii < tupleCount; ii++ {
+		if tp.GetTupleSize(ii) > 0 {''', '''	for ii := initVal; ii < tupleCount; ii++ {
+		if !IsDeleted(tp.GetTupleSize(ii)) {''', ['C04-R8 [TablePage.GetNextTupleRID:marked-rows-are-visited]'])
+m('startup-flush-before-undo', ['C20', 'C02'], SD, '''		if isUndoNeeded {
+			logRecov.Undo(txn)
+		}
+
+		// recovered pages must reach the data file before the log which describes them is discarded
+		// (otherwise a crash between the two loses every change which lived only in the log)
+		shi.bpm.FlushAllPages()
+''', '''		// recovered pages must reach the data file before the log which describes them is discarded
+		// (otherwise a crash between the two loses every change which lived only in the log)
+		shi.bpm.FlushAllPages()
+		if isUndoNeeded {
+			logRecov.Undo(txn)
+		}
+''', ['C20-R4 [NewSamehadaDB:flush-between-Undo-and-GCLogFile]'])
+m('reload-counter-from-last-row', ['C10'], CAT, '''		if uint32(oid)+1 > nextTableID {
+			nextTableID = uint32(oid) + 1
+		}''', '''		nextTableID = uint32(oid) + 1''', ['C10-R1 [RecoveryCatalogFromCatalogPage:nextTableID-is-a-running-maximum]'])
+m('heap-insert-link-page-unpinned-clean', ['C13', 'C09'], TH, '''			newPage.Init(p.GetPageID(), currentPageID, t.logManager, t.lockManager, txn, false)
+			t.bpm.UnpinPage(currentPage.GetPageID(), true)''', '''			newPage.Init(p.GetPageID(), currentPageID, t.logManager, t.lockManager, txn, false)
+			t.bpm.UnpinPage(currentPage.GetPageID(), false)''', ['C13-R8 [(*storage/access.TableHeap).InsertTuple:modified-page-unpinned-clean]'])
 # drop the one that needs a helper that does not exist
 M = [x for x in M if x['id'] != 'insert-executor-unlocks-early']
 os.chdir(os.path.dirname(os.path.abspath(__file__)) + '/..')
